@@ -508,6 +508,13 @@ impl Gen<'_> {
 		if self.rng.chance(1, 8) {
 			parts.push(format!("assert {} : \"inv\"", self.expr(Ty::Bool, d)));
 		}
+		if self.rng.chance(1, 10) {
+			// an assertion that reads a (traced) field of the same object: the field is evaluated once,
+			// whether the read that started the assertions was of that field or of another one
+			self.note("assert-reads-own-field");
+			let f = *self.rng.pick(&["a", "b", "h"]);
+			parts.push(format!("assert std.objectHasAll(self, \"{f}\") && self.{f} == self.{f} || true : \"own\""));
+		}
 		if self.rng.chance(1, 8) {
 			let x = self.fresh("p");
 			self.vars.push((x.clone(), Ty::Num));
